@@ -9,6 +9,7 @@ import (
 	"encoding/hex"
 	"encoding/json"
 	"fmt"
+	"regexp"
 	"sort"
 	"strings"
 
@@ -21,12 +22,13 @@ type Entry struct {
 	Status int    `json:"status"`
 	Digest string `json:"digest"`
 	Body   string `json:"body,omitempty"` // truncated, for diagnostics
+	Full   string `json:"-"` // full body (kept by TakeCanon only)
 }
 
 // Snap is an ordered list of observations.
 type Snap struct {
-	Entries []Entry
-	index   map[string]int
+	Entries  []Entry
+	keepFull bool
 }
 
 // Options selects what is read.
@@ -39,6 +41,7 @@ type Options struct {
 	LabelPoints map[string][]string // instance name -> points "x_y_z" for label queries
 	Bodies      map[string][]uint64 // instance name -> labels to query per version (labelmap)
 	Volume      map[string][2]string // instance name -> size, offset for raw reads ("64_64_64","0_0_0")
+	keepFull    bool
 }
 
 // Read is one HTTP read.
@@ -50,6 +53,9 @@ type Read struct {
 	Norm   func([]byte) []byte // optional normaliser
 }
 
+// log lines are stored with a wall-clock prefix
+var logStamp = regexp.MustCompile(`^\d{4}-\d\d-\d\dT[0-9:.+\-Z]+\s+`)
+
 var dropKeys = map[string]bool{"Created": true, "Updated": true, "MutationID": true, "SavedMutationID": true}
 
 func scrub(v interface{}) interface{} {
@@ -59,6 +65,15 @@ func scrub(v interface{}) interface{} {
 			if dropKeys[k] {
 				delete(t, k)
 				continue
+			}
+			if k == "Log" || k == "log" {
+				if arr, ok := t[k].([]interface{}); ok {
+					for i := range arr {
+						if str, ok := arr[i].(string); ok {
+							arr[i] = logStamp.ReplaceAllString(str, "")
+						}
+					}
+				}
 			}
 			t[k] = scrub(t[k])
 		}
@@ -107,6 +122,9 @@ func digest(b []byte) string {
 
 func (s *Snap) add(key string, status int, body []byte) {
 	e := Entry{Key: key, Status: status, Digest: digest(body)}
+	if s.keepFull {
+		e.Full = string(body)
+	}
 	if len(body) <= 300 {
 		e.Body = string(body)
 	} else {
@@ -141,7 +159,7 @@ type RepoInfo struct {
 
 // Take takes a snapshot.
 func Take(n *node.Node, opt Options) (*Snap, error) {
-	s := &Snap{}
+	s := &Snap{keepFull: opt.keepFull}
 	do := func(rd Read) error {
 		r, err := n.HTTP(rd.Method, rd.URL, rd.Body)
 		if err != nil {
@@ -256,6 +274,63 @@ func Take(n *node.Node, opt Options) (*Snap, error) {
 		if err := do(rd); err != nil {
 			return nil, err
 		}
+	}
+	return s, nil
+}
+
+// Canon rewrites every version UUID as V<version id> and every data UUID as D<name>
+// throughout keys and bodies, so that snapshots of independent runs of the same
+// workload are comparable.  It needs the raw repos/info of the same server.
+func (s *Snap) Canon(n *node.Node) error {
+	r, err := n.HTTP("GET", "/api/repos/info", nil)
+	if err != nil {
+		return err
+	}
+	var repos map[string]RepoInfo
+	if err := json.Unmarshal(r.Bytes(), &repos); err != nil {
+		return err
+	}
+	var pairs []string
+	for _, ri := range repos {
+		for u, nd := range ri.DAG.Nodes {
+			pairs = append(pairs, u, fmt.Sprintf("V%d", nd.VersionID))
+		}
+		for name, di := range ri.DataInstances {
+			if di.Base.DataUUID != "" {
+				pairs = append(pairs, di.Base.DataUUID, "D:"+name)
+			}
+		}
+	}
+	pairs = append(pairs, n.Cfg.Dir, "<DIR>")
+	rep := strings.NewReplacer(pairs...)
+	// bodies were truncated for display; digests must be recomputed from full bodies, so
+	// Canon snapshots are taken with full bodies kept (see TakeCanon).
+	for i := range s.Entries {
+		s.Entries[i].Key = rep.Replace(s.Entries[i].Key)
+		body := rep.Replace(s.Entries[i].Full)
+		if len(body) > 0 && (body[0] == '{' || body[0] == '[') {
+			body = string(NormJSON([]byte(body))) // object keys that were UUIDs sort differently now
+		}
+		s.Entries[i].Body = body
+		s.Entries[i].Digest = digest([]byte(body))
+		if len(s.Entries[i].Body) > 300 {
+			s.Entries[i].Body = s.Entries[i].Body[:300] + "..."
+		}
+		s.Entries[i].Full = body
+	}
+	sort.SliceStable(s.Entries, func(i, j int) bool { return s.Entries[i].Key < s.Entries[j].Key })
+	return nil
+}
+
+// TakeCanon takes a snapshot and canonicalises identifiers.
+func TakeCanon(n *node.Node, opt Options) (*Snap, error) {
+	opt.keepFull = true
+	s, err := Take(n, opt)
+	if err != nil {
+		return nil, err
+	}
+	if err := s.Canon(n); err != nil {
+		return nil, err
 	}
 	return s, nil
 }
@@ -375,5 +450,21 @@ func dropTimes(b []byte) []byte {
 		}
 	}
 	out, _ := json.Marshal(v)
+	return out
+}
+
+// Transform returns a copy of a canonical snapshot with f applied to every full body.
+func Transform(s *Snap, f func(key, body string) string) *Snap {
+	out := &Snap{Entries: make([]Entry, len(s.Entries))}
+	for i, e := range s.Entries {
+		b := f(e.Key, e.Full)
+		e.Full = b
+		e.Digest = digest([]byte(b))
+		e.Body = b
+		if len(b) > 300 {
+			e.Body = b[:300] + "..."
+		}
+		out.Entries[i] = e
+	}
 	return out
 }
